@@ -47,6 +47,17 @@ func lockGraphBody(r *explore.Run, rep *report.R, sc string, flags, n int, fixed
 		if !strings.Contains(o.message, "cycle") {
 			r.Failf("lock/cycle/not-surfaced", "lock %s has a dependency cycle but the Resolved condition says %q", g, o.message)
 		}
+		// The failed reconcile is retried by the same controller instance,
+		// on a Lock that has not changed: always detected, every time.
+		for retry := 1; retry <= 2; retry++ {
+			o2 := w.reconcile(r, "resolver/lock-graph")
+			if len(o2.pkgs) != 0 || len(o2.writes) != 0 {
+				r.Failf("lock/cycle/package-installed-on-retry", "lock %s has a dependency cycle; retry %d of the reconcile (same controller instance, unchanged Lock) wrote packages: %s", g, retry, o2)
+			}
+			if o2.err == nil || o2.resolved != "False" {
+				r.Failf("lock/cycle/not-surfaced-on-retry", "lock %s has a dependency cycle; retry %d returned err=%v and Resolved=%q", g, retry, o2.err, o2.resolved)
+			}
+		}
 	case len(missing) == 0:
 		class = "complete"
 		if len(o.pkgs) != 0 || len(o.writes) != 0 {
